@@ -44,7 +44,8 @@ def main():
     tmpd = "/tmp/seedv/tmp-%s" % os.path.basename(out.rstrip("/"))
     os.makedirs(tmpd, exist_ok=True)
     # private TMPDIR: the stubgen tests of the pinned suite write to $TMPDIR/trustfall_stubgen and collide across concurrent runs
-    env = dict(os.environ, CARGO_NET_OFFLINE="true", CARGO_TARGET_DIR=target, TMPDIR=tmpd)
+    # WT: demo scripts that build from "the worktree" (C27's Python demos) take its location from this variable
+    env = dict(os.environ, CARGO_NET_OFFLINE="true", CARGO_TARGET_DIR=target, TMPDIR=tmpd, WT=wt)
     res = {"property": prop, "demo_cmd": demo_cmd}
 
     def rewrite(cmd):
